@@ -38,10 +38,14 @@ func init() {
 	})
 	register(&Check{
 		ID: "C19", Level: "exploration",
-		Rule:        "REAL processes: every command is `pxcheck emit <plan>`, a deterministic generator that writes PRNG bytes (binary or line-structured UTF-8 text) to stdout and stderr in interleaved chunks of 1 B - 256 KiB, every chunk tagged with (job tag from a job variable, task, command, stream, offset) so that foreign bytes are recognisable wherever they land; sizes 0, 1, 2, 100, 4095, 4096, 65535-65537, 200000 (thorough: 1 MiB, 1 MiB+1, 8 MiB), with and without trailing newline, 1-4 commands per task, 1-5 tasks per job (some with dependencies), 1-6 jobs at once over 1-2 pipelines with concurrency 1-3, commands that fail midway (output complete up to the failure; later commands only with allow_failure), a slow task that is canceled (stored output must be a prefix of the written stream). Task names: plain, spaces, dots, unicode, names that are prefixes of each other, names with '/', '..', '%'. Oracle: bytes from FileOutputStore.Reader == recomputed stream (length, SHA-256, first differing offset), GET /job/logs equal for UTF-8 payloads, 404 for a task the job does not have (also one that another job has), no log file outside the job's directory. A situation is (#commands, size class, lines?, canceled?, task-name class)",
+		Rule:        "REAL processes: every command is `pxcheck emit <plan>`, a deterministic generator that writes PRNG bytes (binary or line-structured UTF-8 text) to stdout and stderr in interleaved chunks of 1 B - 256 KiB, every chunk tagged with (job tag from a job variable, task, command, stream, offset) so that foreign bytes are recognisable wherever they land; sizes 0, 1, 2, 100, 4095, 4096, 65535-65537, 200000 (thorough: 1 MiB, 1 MiB+1, 8 MiB), with and without trailing newline, 1-4 commands per task, 1-5 tasks per job (some with dependencies), 1-6 jobs at once over 1-2 pipelines with concurrency 1-3, commands that fail midway (output complete up to the failure; later commands only with allow_failure), a slow task that is canceled (stored output must be a prefix of the written stream). Task names: plain, spaces, dots, unicode, names that are prefixes of each other, names with '/', '..', '%'. Oracle: bytes from FileOutputStore.Reader == recomputed stream (length, SHA-256, first differing offset), GET /job/logs equal for UTF-8 payloads, 404 for a task the job does not have (also one that another job has), no log file outside the job's directory. Every 16th case: the log file of ONE task cannot be created (name longer than a file name may be / path taken by a directory) after a sibling finished and while another still writes - what the siblings wrote is returned completely by the store and by GET /job/logs. A situation is (#commands, size class, lines?, canceled?, task-name class)",
 		Assumptions: []string{"stdout and stderr are compared separately; relative order between the two streams is not part of the statement"},
 		Cases:       func(t string) int { return tierN(t, 64, 1600) },
 		RunCase: func(c *CaseCtx) *CaseResult {
+			if c.Idx%16 == 5 {
+				// the log file of one task cannot be created: the output of its siblings is captured all the same
+				return simpleCase(c, drv.RunLogCreationFaultCase(int64(c.Idx/16), c.TmpDir), 4)
+			}
 			o := drv.OutputOpts{Exe: selfExe(), WorkDir: c.TmpDir, MaxBytes: 200000}
 			if c.Tier == "thorough" && c.Idx%8 == 0 {
 				o.Big, o.MaxBytes = true, 8<<20
